@@ -336,6 +336,8 @@ func genGraph(seed uint64) *gen {
 	g := newGen(r, fmt.Sprintf("graph-%d", seed), limit, threads, host)
 	g.lenient = r.Chance(1, 6)
 	g.apiReexports = r.Chance(1, 8)
+	g.tail = r.Chance(1, 3)
+	siblings := r.Chance(1, 2)
 	nGood := 2 + r.Intn(3)
 	nb := 0
 	for i := 0; i < nGood; i++ {
@@ -346,6 +348,17 @@ func genGraph(seed uint64) *gen {
 		res := g.instantiate(g.genModule(fmt.Sprintf("m%d", i)))
 		if !res.OK {
 			g.count("good_module_predicted_to_fail_" + failClass(res.Fail))
+		}
+		if res.OK && siblings && r.Chance(1, 2) {
+			// a second (third) instance of the SAME CompiledModule: same imports, hence the same shared objects,
+			// but its own private memory/tables/globals
+			spec := g.sc.Mods[len(g.sc.Mods)-1]
+			g.initPrivate(res.Inst, 1)
+			for k := 1 + r.Intn(2); k > 0; k-- {
+				if sr := g.instantiateAs(spec, fmt.Sprintf("m%ds%d", i, k)); sr.OK {
+					g.initPrivate(sr.Inst, 1+k)
+				}
+			}
 		}
 		if len(g.live) == 0 {
 			continue
@@ -372,6 +385,12 @@ func genGraph(seed uint64) *gen {
 	}
 	if threads {
 		g.count("graphs_with_threads_feature")
+	}
+	if g.tail {
+		g.count("graphs_with_tail_calls")
+	}
+	if siblings {
+		g.count("graphs_with_sibling_instances")
 	}
 	if host {
 		g.count("graphs_with_host_module")
